@@ -12,6 +12,7 @@ the staged value, the job directory and the original files are observed (content
 destinations, inode / write-through probes) and compared with the values TLC computed.
 """
 import os
+from concurrent.futures import ThreadPoolExecutor
 from pathlib import Path
 
 from harness import core, staging_common as sc
@@ -239,8 +240,10 @@ def run(ctx):
                 "object) over {4 files, 2 directories, 1 two-file file-set, one int}; distinct = initial states of "
                 "Staging_Gen; an evaluation = one (value, copy mode, collation) staged by Job.inputs of a real Job; "
                 "non-trivial = value with a name clash or a repeated object")
-    info, c1 = sc.generate(ctx, POOL, 1, False, True)
-    _, c2 = sc.generate(ctx, POOL, 2, False, True, nshards=4)
+    with ThreadPoolExecutor(max_workers=2) as ex:
+        f1 = ex.submit(sc.generate, ctx, POOL, 1, False, True)
+        f2 = ex.submit(sc.generate, ctx, POOL, 2, False, True, 4)
+        (info, c1), (_, c2) = f1.result(), f2.result()
     ctx.extra["spaces"] = {"n=1": len(c1), "n=2": len(c2)}
     allc = c1 + c2
     triples = [(c, m, k) for c in allc for m in MODES for k in COLLS]
@@ -248,10 +251,11 @@ def run(ctx):
         ctx.exhaustive = True
     else:
         hot = [t for t in triples if t[0]["clash"] or t[0]["same"]]
-        triples = ctx.rng.sample(hot, 900) + ctx.rng.sample(triples, 400) + \
+        triples = ctx.rng.sample(hot, 600) + ctx.rng.sample(triples, 300) + \
             [(c, m, k) for c in c1 for m in MODES for k in COLLS if c["leaves"][0]["o"] == "P1" or c["fields"][0]["k"] == "leaf"]
     prepare(ctx, triples)
     sc.BASE = str(ctx.scratch)
+    sc.private_hash_cache(ctx)
     selftest(next(c for c in c2 if c["clash"] and not c["same"] and all(l["o"] in ("F1", "F2") for l in c["leaves"])), info)
     args = [(c, info, m, k, n) for n, (c, m, k) in enumerate(triples)]
     res = core.pmap(check, args, chunksize=16)
@@ -298,6 +302,7 @@ def replay(ctx, rec):
     c = rec["case"]
     prepare(ctx, [(c["tlc"], c["mode"], c["coll"])], name="c34_replay_defs")
     sc.BASE = str(ctx.scratch)
+    sc.private_hash_cache(ctx)
     v, d, obs, _ = check((c["tlc"], c["pool"], c["mode"], c["coll"], c.get("variant", 0)))
     ctx.ran()
     print("replay verdict:", v, d)
